@@ -115,7 +115,7 @@ class C11(fw.Prop):
             "canonical path on the real object, every frame kind (SNRM, UA, DISC, RR, I, UI) in both directions with every "
             "(ssn, rsn) in 8 x 8 for information frames; then random histories of 50..400 steps (70% procedure-legal steps) so "
             "that both counters wrap several times; each step compared with Spec.Nrm (accept/refuse, phase, next numbers) "
-            "and with the model of the code (error class, all four counters); every other unnumbered control byte (DM, FRMR, ... 56 values, with and without header check sequence) received in every phase; non-trivial = distinct history")
+            "and with the model of the code (error class, all four counters); every other unnumbered control byte (DM, FRMR, ... 56 values, with and without header check sequence) received in every phase; information fields of 0, 1, 128, 129, 500 and 2030 bytes; non-trivial = distinct history")
     trusted_base = ["extract.py prints HDLC_STATE_TRANSITIONS / SEND_STATES / PARSE_METHODS as they are in the running code",
                     "Spec.Nrm is my reading of the NRM client procedure (window 1, modulo 8)"]
     assumptions = ["frames are delivered one at a time (the harness clears the receive buffer after each poll); chunked delivery is C10",
